@@ -281,3 +281,26 @@ Proof.
   - unfold domain. splits; [vm_compute; reflexivity | apply in_scope_b_sound; vm_compute; reflexivity | left; reflexivity | vm_compute; reflexivity].
   - apply split_of_b_sound. vm_compute. reflexivity.
 Qed.
+
+(* ------------------------------------------------------------------ the evaluator's narrowed guard of C20-F4 *)
+Local Close Scope string_scope.
+
+Lemma f4_sites_none : forall parts pre, flat_after_index parts = false -> f4_sites pre parts = [].
+Proof.
+  induction parts as [|p r IH]; intros pre H; [reflexivity|].
+  simpl in H. apply orb_false_iff in H as [H1 H2]. simpl. rewrite H1. simpl. apply IH. assumption.
+Qed.
+
+(** the theorems' syntactic condition implies the evaluator's narrowed one: a load the theorems speak about
+    is never excused by the evaluator as C20-F4 *)
+Lemma guard_F4n_narrower d f ne : guard_F4 ne = false -> guard_F4n d f ne = false.
+Proof.
+  unfold guard_F4, guard_F4n. intro H.
+  destruct (existsb _ ne) eqn:E in |- *; [|reflexivity]. exfalso.
+  apply existsb_exists in E as (a & Ha & Hs).
+  assert (Hf : flat_after_index (split_dot (fst a)) = false).
+  { destruct (flat_after_index (split_dot (fst a))) eqn:F; [|reflexivity].
+    assert (X : existsb (fun a0 => flat_after_index (split_dot (fst a0))) ne = true) by (apply existsb_exists; eauto).
+    congruence. }
+  rewrite (f4_sites_none _ [] Hf) in Hs. discriminate.
+Qed.
